@@ -1603,10 +1603,13 @@ impl Universe {
                 let cur = sys::fstat(fd).map(|s| (s.st_dev, s.st_ino)).unwrap_or((0, 0));
                 if cur != (b.1, b.2) {
                     if let Ok(nfd) = sys::open(b"/dev/null", libc::O_RDWR, 0) {
-                        unsafe {
-                            libc::dup2(nfd, fd);
+                        // (when the slot itself was free the new descriptor already is `fd`)
+                        if nfd != fd {
+                            unsafe {
+                                libc::dup2(nfd, fd);
+                            }
+                            sys::close(nfd);
                         }
-                        sys::close(nfd);
                     }
                 }
             }
